@@ -21,19 +21,19 @@ import (
 // Oracle: the generator's plan (site -> final target marker); markers identify objects.
 
 type c02Witness struct {
-	Entry  string            `json:"entry_point"`
-	Root   string            `json:"root"`
-	Files  map[string]string `json:"files"`
-	Plan   *refPlan          `json:"plan,omitempty"`
-	Got    string            `json:"got"`
-	Want   string            `json:"want"`
-	Reads  []string          `json:"reads,omitempty"`
+	Entry string            `json:"entry_point"`
+	Root  string            `json:"root"`
+	Files map[string]string `json:"files"`
+	Plan  *refPlan          `json:"plan,omitempty"`
+	Got   string            `json:"got"`
+	Want  string            `json:"want"`
+	Reads []string          `json:"reads,omitempty"`
 }
 
 func init() {
 	core.Register(&core.Check{
 		ID:   "C02",
-		Rule: "reference trees: for each of 35 positions where a Reference Object may stand (components of 9 kinds, schema applicators, operation/path-item parameters, request body, responses, response/encoding headers, media-type/parameter/header examples, links, callbacks, path items) x form (internal component, whole external file, fragment of an external file) x shape (direct, chain through an alias component, chain through a second file in another directory, back-reference from that file into the root) x spelling (plain, ./, zz/../, absolute, YAML file) one single-site tree, plus combined trees planting all positions at once, cycles (self, mutual, across files, closed through properties/items/allOf/additionalProperties), a diamond, the same $ref string used from two files, whole-file objects of 5 kinds in another directory whose own relative references must resolve against their location (decoys next to the root), and negative trees (dangling component, missing file, missing fragment, wrong kind) that must fail to load; one Loader reused after a load that failed inside reference resolution (5 kinds x 3 x 3 entry points); entry points LoadFromFile and LoadFromDataWithPath over an in-memory file system (relative and absolute roots), LoadFromData for internal-only trees, and a real-file pass through the default reader in a scratch directory. Every referenceable object carries a unique marker, so the marker observed at a site identifies the object it resolved to. Distinct = (position, form, shape, spelling, entry point); non-trivial = at least one cross-file or chained or cyclic reference.",
+		Rule: "reference trees: for each of 35 positions where a Reference Object may stand (components of 9 kinds, schema applicators, operation/path-item parameters, request body, responses, response/encoding headers, media-type/parameter/header examples, links, callbacks, path items) x form (internal component, whole external file, fragment of an external file) x shape (direct, chain through an alias component, chain through a second file in another directory, back-reference from that file into the root) x spelling (plain, ./, zz/../, absolute, YAML file) one single-site tree, plus combined trees planting all positions at once, cycles (self, mutual, across files, closed through properties/items/allOf/additionalProperties), a diamond, the same $ref string used from two files, whole-file objects of 5 kinds in another directory whose own relative references must resolve against their location (decoys next to the root), and negative trees (dangling component, missing file, missing fragment, wrong kind) that must fail to load; one Loader reused after a load that failed inside reference resolution (5 kinds x 3 x 3 entry points); references whose pointer ends on a container map (must fail); documents at the same path on different hosts and differing in the query only (3 kinds x 2 entry points, one Loader for two roots); entry points LoadFromFile and LoadFromDataWithPath over an in-memory file system (relative and absolute roots), LoadFromData for internal-only trees, and a real-file pass through the default reader in a scratch directory. Every referenceable object carries a unique marker, so the marker observed at a site identifies the object it resolved to. Distinct = (position, form, shape, spelling, entry point); non-trivial = at least one cross-file or chained or cyclic reference.",
 		Assumptions: []string{
 			"markers live in fields that survive loading (title / description / summary)",
 			"termination is judged by a read counter (at most 50 reads per file) and the CPU-time watchdog",
@@ -168,6 +168,10 @@ func runC02(c *core.Ctx) {
 		c02LoaderReuse(c)
 	}
 	idx++
+	if c.Mine(idx) {
+		c02RemoteHosts(c)
+	}
+	idx++
 }
 
 // c02Special: cycles, diamond, same ref string from two files.
@@ -224,8 +228,8 @@ func c02Special() []refTree {
 	dig(root, "components", "schemas")["Site"] = gen.S{"$ref": "a/x.json#/components/schemas/X"}
 	dig(root, "components", "schemas", "Holder", "properties")["p"] = gen.S{"$ref": "b/y.json#/components/schemas/Y"}
 	mk(root, map[string]gen.S{
-		"w/a/x.json": lib("x", gen.S{"X": gen.S{"$ref": "../common/t.json#/components/schemas/T"}}),
-		"w/b/y.json": lib("y", gen.S{"Y": gen.S{"$ref": "../common/t.json#/components/schemas/T"}}),
+		"w/a/x.json":      lib("x", gen.S{"X": gen.S{"$ref": "../common/t.json#/components/schemas/T"}}),
+		"w/b/y.json":      lib("y", gen.S{"Y": gen.S{"$ref": "../common/t.json#/components/schemas/T"}}),
 		"w/common/t.json": lib("t", gen.S{"T": gen.S{"type": "object", "title": "MARKDIAMOND"}}),
 	}, []refPlan{
 		{Position: "components.schemas.Site", Kind: "schema", Form: "fragment", Shape: "diamond", Ref: "a/x.json#/components/schemas/X", Marker: "MARKDIAMOND"},
@@ -341,6 +345,13 @@ func c02Negative() []refTree {
 		libDoc := gen.S{"openapi": "3.0.3", "info": gen.S{"title": "lib", "version": "1"}, "paths": gen.S{}, "components": gen.S{coll: gen.S{"Other": targetObject(pos.kind, "MARKOTHER")}}}
 		out = append(out, refTree{Root: "w/root.json", Files: map[string]string{"w/root.json": mustJSON(root), "w/lib.json": mustJSON(libDoc)}, External: true,
 			Plans: []refPlan{{Position: pos.name, Kind: pos.kind, Form: "fragment", Shape: "direct", Ref: "lib.json#/components/" + coll + "/Missing", Fails: "missing-fragment"}}})
+		// a pointer that ends on a container map instead of on one object
+		for _, container := range []string{"#/components/" + coll, "#/components", "#/paths", "#/components/schemas/Holder/properties"} {
+			root = refRootSkeleton()
+			pos.plant(root, gen.S{"$ref": container})
+			out = append(out, refTree{Root: "w/root.json", Files: map[string]string{"w/root.json": mustJSON(root)},
+				Plans: []refPlan{{Position: pos.name, Kind: pos.kind, Form: "internal", Shape: "direct", Ref: container, Fails: "container-map"}}})
+		}
 		// wrong kind: a component of another kind
 		for _, wk := range refKinds {
 			if wk.coll == "" || wk.name == pos.kind {
@@ -415,7 +426,10 @@ func c02Tree(c *core.Ctx, t refTree, negative bool) {
 			continue // quick tier: a sixth of the single-site trees go through real files
 		}
 		desc := fmt.Sprintf("entry=%s root=%s plans=%d first=%+v", e.name, t.Root, len(t.Plans), t.Plans[0])
-		c.BeginLazy(func() string { b, _ := json.Marshal(c02Witness{Entry: e.name, Root: t.Root, Files: t.Files}); return string(b) })
+		c.BeginLazy(func() string {
+			b, _ := json.Marshal(c02Witness{Entry: e.name, Root: t.Root, Files: t.Files})
+			return string(b)
+		})
 		rd := &c02reader{files: t.Files, limit: 50 * (len(t.Files) + 1)}
 		var d *openapi3.T
 		var err error
@@ -693,6 +707,110 @@ func c02LoaderReuse(c *core.Ctx) {
 				case m != "MARKGOOD":
 					c.Violate(feat("resolved_to_wrong_object"), w, desc+"\nresolved to the object marked "+m)
 				}
+			}
+		}
+	}
+}
+
+// c02RemoteHosts: documents at the same path on different hosts (and differing in the query only) are different documents:
+// fragment references into each must resolve to that host's object, and one Loader loading two roots at the same path on
+// two hosts must return two documents.
+func c02RemoteHosts(c *core.Ctx) {
+	lib := func(coll, marker string) string {
+		return mustJSON(gen.S{"openapi": "3.0.3", "info": gen.S{"title": marker, "version": "1"}, "paths": gen.S{}, "components": gen.S{coll: gen.S{"T": targetObject(map[string]string{"schemas": "schema", "parameters": "parameter", "responses": "response"}[coll], marker)}}})
+	}
+	for _, coll := range []string{"schemas", "parameters", "responses"} {
+		root := gen.S{"openapi": "3.0.3", "info": gen.S{"title": "ROOTA", "version": "1"}, "paths": gen.S{}, "components": gen.S{coll: gen.S{
+			"X": gen.S{"$ref": "https://b.example/lib/common.json#/components/" + coll + "/T"},
+			"Y": gen.S{"$ref": "https://c.example/lib/common.json#/components/" + coll + "/T"},
+			"Z": gen.S{"$ref": "https://b.example/lib/common.json?v=2#/components/" + coll + "/T"},
+			"W": gen.S{"$ref": "//c.example/lib/common.json#/components/" + coll + "/T"},
+		}}}
+		rootD := gen.Clone(root)
+		rootD["info"] = gen.S{"title": "ROOTD", "version": "1"}
+		universe := map[string]string{
+			"https://a.example/api/root.json":       mustJSON(root),
+			"https://d.example/api/root.json":       mustJSON(rootD),
+			"https://b.example/lib/common.json":     lib(coll, "MARKB"),
+			"https://c.example/lib/common.json":     lib(coll, "MARKC"),
+			"https://b.example/lib/common.json?v=2": lib(coll, "MARKB2"),
+		}
+		for _, entry := range []string{"LoadFromURI", "LoadFromDataWithPath"} {
+			desc := fmt.Sprintf("same path on different hosts kind=%s entry=%s", coll, entry)
+			c.Begin(desc)
+			var reads []string
+			l := openapi3.NewLoader()
+			l.IsExternalRefsAllowed = true
+			l.ReadFromURIFunc = func(_ *openapi3.Loader, u *url.URL) ([]byte, error) {
+				reads = append(reads, u.String())
+				if len(reads) > 100 {
+					return nil, errors.New("read limit exceeded")
+				}
+				k := *u
+				k.Fragment = ""
+				if s, ok := universe[k.String()]; ok {
+					return []byte(s), nil
+				}
+				return nil, fmt.Errorf("no such document %s", u)
+			}
+			load := func(loc string) (*openapi3.T, error) {
+				u, _ := url.Parse(loc)
+				if entry == "LoadFromURI" {
+					return l.LoadFromURI(u)
+				}
+				return l.LoadFromDataWithPath([]byte(universe[loc]), u)
+			}
+			var d1, d2 *openapi3.T
+			var err1, err2 error
+			c.Eval()
+			pi := core.Guard(func() {
+				d1, err1 = load("https://a.example/api/root.json")
+				d2, err2 = load("https://d.example/api/root.json")
+			})
+			w := c02Witness{Entry: entry, Root: "https://a.example/api/root.json", Files: universe, Reads: reads}
+			if pi != nil {
+				c.Violate(core.PanicFeatures(pi), w, desc+"\n"+pi.Value+"\n"+core.Truncate(pi.Stack, 2000))
+				continue
+			}
+			c.Distinct(desc)
+			c.Cover("remote_hosts", coll+"/"+entry)
+			feat := func(kind, pos string) map[string]string {
+				return map[string]string{"kind": kind, "shape": "same-path-on-different-hosts", "position": pos, "entry": entry}
+			}
+			if err1 != nil || err2 != nil {
+				w.Got = fmt.Sprint(err1, " / ", err2)
+				c.Violate(feat("valid_tree_fails_to_load", "components."+coll), w, desc+"\nload errors: "+w.Got)
+				continue
+			}
+			markerOf := func(d *openapi3.T, name string) (string, bool) {
+				switch coll {
+				case "schemas":
+					_, m, ok, _ := schemaInfo(d.Components.Schemas[name])
+					return m, ok
+				case "parameters":
+					_, m, ok, _ := paramInfo(d.Components.Parameters[name])
+					return m, ok
+				}
+				_, m, ok, _ := respInfo(d.Components.Responses[name])
+				return m, ok
+			}
+			for name, want := range map[string]string{"X": "MARKB", "Y": "MARKC", "Z": "MARKB2", "W": "MARKC"} {
+				got, ok := markerOf(d1, name)
+				w.Got, w.Want = got, want
+				switch {
+				case !ok:
+					c.Violate(feat("unresolved_after_successful_load", "components."+coll+"."+name), w, desc+"\ncomponent "+name+" left unresolved")
+				case got != want:
+					c.Violate(feat("resolved_to_wrong_object", "components."+coll+"."+name), w, fmt.Sprintf("%s\ncomponent %s resolved to the object marked %q, the reference designates %q", desc, name, got, want))
+				}
+			}
+			if d2.Info == nil || d2.Info.Title != "ROOTD" {
+				got := ""
+				if d2.Info != nil {
+					got = d2.Info.Title
+				}
+				w.Got, w.Want = got, "ROOTD"
+				c.Violate(feat("second_root_is_another_document", "root"), w, desc+"\nthe second load (https://d.example/api/root.json) returned the document titled "+got)
 			}
 		}
 	}
